@@ -482,6 +482,8 @@ func (r *Runtime) Loop() *Result {
 	runsStarted.Add(1)
 	defer active.Store(nil)
 	h := uint64(1469598103934665603)
+	var idle time.Duration
+	idleJumps := 0
 	for {
 		synctest.Wait()
 		r.epoch++
@@ -504,18 +506,22 @@ func (r *Runtime) Loop() *Result {
 		}
 		rs := r.runnable()
 		if len(rs) == 0 {
-			if r.cfg.TimeHorizon > 0 && r.res.SimTime < r.cfg.TimeHorizon && r.unfinished() {
-				q := time.Millisecond << uint(r.res.TimeJumps)
+			// (the horizon bounds one continuous stretch in which nothing is runnable, not the run)
+			if r.cfg.TimeHorizon > 0 && idle < r.cfg.TimeHorizon && r.unfinished() {
+				q := time.Millisecond << uint(idleJumps)
 				if q > time.Second || q <= 0 {
 					q = time.Second
 				}
 				time.Sleep(q) // fake clock of the bubble: jumps to the next timer once everything is blocked
+				idleJumps++
+				idle += q
 				r.res.TimeJumps++
 				r.res.SimTime += q
 				continue
 			}
 			break
 		}
+		idle, idleJumps = 0, 0
 		if r.steps >= r.cfg.MaxSteps {
 			r.res.StepCap = true
 			break
